@@ -141,6 +141,11 @@ func unmarshalList(buf []byte, ety cty.Type, path cty.Path) (cty.Value, error) {
 		return cty.ListValEmpty(ety), nil
 	}
 
+	if !cty.CanListVal(vals) {
+		// only possible when the element type is (or contains) the dynamic
+		// pseudo-type and the members were decoded to different types
+		return cty.NilVal, path.NewErrorf("all list elements must have the same type")
+	}
 	return cty.ListVal(vals), nil
 }
 
@@ -182,6 +187,11 @@ func unmarshalSet(buf []byte, ety cty.Type, path cty.Path) (cty.Value, error) {
 		return cty.SetValEmpty(ety), nil
 	}
 
+	if !cty.CanSetVal(vals) {
+		// only possible when the element type is (or contains) the dynamic
+		// pseudo-type and the members were decoded to different types
+		return cty.NilVal, path.NewErrorf("all set elements must have the same type")
+	}
 	return cty.SetVal(vals), nil
 }
 
@@ -234,6 +244,11 @@ func unmarshalMap(buf []byte, ety cty.Type, path cty.Path) (cty.Value, error) {
 		return cty.MapValEmpty(ety), nil
 	}
 
+	if !cty.CanMapVal(vals) {
+		// only possible when the element type is (or contains) the dynamic
+		// pseudo-type and the members were decoded to different types
+		return cty.NilVal, path.NewErrorf("all map elements must have the same type")
+	}
 	return cty.MapVal(vals), nil
 }
 
